@@ -19,7 +19,7 @@ CLAIMS["C12"] = {
     "technique": "path rules (must/may dataflow, cycle analysis) over the interprocedural MIR event graph",
     "text": "Decides, for every path of the connection task and of the poll-style Request/StreamWriter APIs (hence every fault position "
             "and chunking): each transport read/write count is compared with 0 before use and the zero edge returns ConnectionReset "
-            "(preamble) / UnexpectedEof (in request) / WriteZero with no further I/O (R12.1, R12.4); no io::Result or parser Result is "
+            "(preamble) / UnexpectedEof (in request) / WriteZero with no further I/O, for poll_write as for awaited write / write_vectored (R12.1, R12.4); no io::Result or parser Result is "
             "dropped uninspected and only the three enumerated errors are tolerated (R12.2); no READ/WRITE/PARSE/HANDLER event follows an "
             "observed, un-tolerated error (R12.3: nothing is written after a failed write, no handler for a failed preamble); every cycle "
             "contains a suspension, transport I/O, the handler or an iterator step and Pending is propagated (R12.5: no spinning). "
@@ -38,7 +38,8 @@ CLAIMS["C07"] = {
             "built from the request's id, close()'s status and output_streams() iff writeable (R7.3); reuse iff KeepConn, ConnectionReset "
             "otherwise, and run() re-enters the preamble phase only with close()'s Ok value (R7.4); the hand-off to the next request keeps the "
             "unread input (R7.5), the buffer is compacted before every in-request read (R7.6), a stream switch always demotes a record of the "
-            "old stream in flight and close() never drives the parser at a record boundary (R7.7). Does NOT decide byte-level output "
+            "old stream in flight and close() never drives the parser at a record boundary (R7.7), pending management replies are drained by exactly the "
+            "count the transport accepted so none is sent twice before the epilogue (R7.8). Does NOT decide byte-level output "
             "correctness per transport split, nor that the handler sees exactly the request's environment/streams (C01/C02/C09).",
     "note": "Parser APIs are events with their documented meaning; make_request_epilogue's own encoding is C17's subject.",
     "design_ref": "DESIGN.md §4 C07",
@@ -50,7 +51,8 @@ CLAIMS["C13"] = {
             "than its permits: Token has one construction site whose permit field is the awaited acquire_arc on the runner's semaphore "
             "(R13.1); the semaphore is created once with config.max_conns.get() and every Runner (incl. Clone) shares it (R13.2); no leak "
             "primitive exists anywhere in the crate and the permit field is never touched, Token is not Clone (R13.3, with a positive "
-            "fixture proving the matcher fires). Does NOT decide sentences 2-3 (immediate completion, wake-ups of queued requests, "
+            "fixture proving the matcher fires); no field is ever moved out of a Token, so the permit lives exactly as long as the value handed to "
+            "the connection task (R13.4). Does NOT decide sentences 2-3 (immediate completion, wake-ups of queued requests, "
             "cancellation): those are async-lock's behaviour.",
     "note": "async_lock::Semaphore / SemaphoreGuardArc semantics trusted; get_token having a single suspension point is checked as a necessary condition of 'completes immediately'.",
     "design_ref": "DESIGN.md §4 C13",
@@ -98,12 +100,14 @@ CLAIMS["C17"] = {
 }
 
 CLAIMS["C15"] = {
-    "technique": "decision-table extraction (path enumeration with term substitution) + constant and construction-site checks",
+    "technique": "decision-table extraction + constant and construction-site checks; cell-wise reaching definitions over byte terms (engine E9) for the codec bodies",
     "text": "Decides six structural obligations whose conjunction implies the statement by the hand proof in DESIGN.md: MAX == 2^31-1 and "
             "LONG_BIT == 0x80 (O1); TryFrom<u32> fails exactly for v > MAX and TryFrom<usize> delegates through u32 (O2); VarInt values are "
-            "constructed only at range-preserving sites (O3); decoder and encoder use the same LONG_BIT for test/set/clear, the short form "
-            "exactly below it, big-endian on both sides (O4); the decoder reads 1 then 3 bytes through read_exact only, so truncation yields "
-            "its UnexpectedEof (O5); the encoder reports the length of the very array it wrote (O6). The implication itself is not "
+            "constructed only at range-preserving sites (O3); on every path the decoder yields VarInt(in[0]) after one byte when in[0] & LONG_BIT == 0 and "
+            "VarInt(from_be_bytes[in[0] & !LONG_BIT, in[1], in[2], in[3]]) after four otherwise, the encoder writes [self.0 as u8] when self.0 < LONG_BIT and "
+            "[be(self.0)[0] | LONG_BIT, be[1], be[2], be[3]] otherwise - tables of normalised byte terms per path, independent of how the scratch arrays are "
+            "laid out (O4); the reader is touched through read_exact only and Err is returned only when a read failed, so truncation yields its "
+            "UnexpectedEof (O5); the encoder returns Ok(n) only after every write_all succeeded, n being the number of bytes handed to it (O6). The implication itself is not "
             "machine-checked and no value is enumerated: the bijection as a computed fact is NOT decided.",
     "note": "read_exact / write_all contracts of std::io trusted.",
     "design_ref": "DESIGN.md §4 C15",
@@ -114,9 +118,10 @@ CLAIMS["C04"] = {
     "text": "Decides who is answered with what as a finite table: the decision tables of the three header-dispatch sites (request parser before "
             "and during Params, stream parser) are extracted on every path and compared row by row with an oracle written from the FastCGI "
             "specification - reply constructor, protocol status, application status 0, id provenance (sender's id vs. request id), exactly "
-            "one append per owed row and none otherwise, next state, header consumption, and agreement of the three siblings (R4.1); a "
+            "one append per owed row and none otherwise, next state, header consumption, whether the drive loop goes on (a handled record never hands control "
+            "back with input pending) and agreement of the three siblings; a path that does not test an atom is compared on every input it covers (R4.1); a "
             "GetValuesResult is emitted only when the whole remaining body is present, once, for a non-empty body, with the name-value "
-            "decoder bounded by the record's payload (R4.2); reply buffers are append-only except at the documented reset points (R4.3); "
+            "decoder's input no longer than the record's remaining payload at every construction (E8 obligation) (R4.2); reply buffers are append-only except at the documented reset points (R4.3); "
             "reported counts equal appended bytes (R4.4); a pending GetValues body cannot be discarded by other APIs (R4.5). Does NOT decide "
             "which variables a body split at an arbitrary offset contributes (name-value prefix-monotonicity, C16) nor the arithmetic of "
             "consume_output(k) interleavings.",
@@ -178,21 +183,25 @@ CLAIMS["C03"] = {
             "region where the new cursors point (R3.10); in both parsers' framing code (stream parse / parse_payload / parse_head, request parse, "
             "Skip / GetValues / Params / Header drives) every subtraction, u8/u16 addition, narrowing cast, slice, split_at, copy_within and "
             "indexed access is proved in range on every path from the types' ranges, the path condition and the cursor invariant (R3.11). "
+            "No hang: every iteration of stream::Parser::parse's loop strictly shrinks the unparsed input (R3.12, loop variant checked by E8 against verified "
+            "callee postconditions), and request::State::drive feeds each drive's Continue back unchanged, Header/Params drives consume on every Continue, "
+            "Skip/GetValues drives hand over to a consuming or final state without growing the input and stop only while their record is incomplete (R3.13). "
+            "A record state in flight is replaced only where C04 R4.5 allows (R3.14: the reply to a partially received GetValues cannot depend on when set_stream is called). "
             "Does NOT decide panics outside those obligations (expect/unwrap on Option/Result values, e.g. in parse_buffered's length "
-            "arithmetic: inventory reported as information) nor chunking-invariance of outcomes.",
+            "arithmetic: inventory reported as information) nor chunking-invariance of outcomes beyond these necessary conditions.",
     "note": "R3.11 assumes three callee contracts (io::Write::write returns n <= buf.len(); NVIter only shrinks its slice, see C16 R16.1/R16.2; the remainder "
             "returned through replace_with_and_return is a reborrow of input[..input_len]); the crate-local contracts (parse_stream, parse_buffered, "
             "parse_payload, parse_head) are verified as postconditions.",
     "design_ref": "DESIGN.md §4 C03",
 }
 CLAIMS["C05"] = {
-    "technique": "hand-off provenance and effect-order rules on enumerated MIR paths (with inlining of the parser's private helpers); must-dataflow on the interprocedural event graph (R5.5)",
+    "technique": "hand-off provenance rules on enumerated MIR paths; abstract interpretation with byte-region tracking (E8) for what is handed over; must-dataflow on the interprocedural event graph (R5.5)",
     "text": "Decides the structural part of each hand-off: into_request / into_stream_parser pass exactly (input buffer, input_len) and "
             "convert only final states (R5.1, R5.2); the stream parser's constructor starts all cursors at 0 with free_start = that length; "
             "into_request_parser / into_input return Err(Interrupted) untouched off a record boundary, otherwise discard buffered stream data "
-            "(parsed_start, gap_start <- 0), compact the raw region down, and only then read free_start for the hand-over; the request "
-            "parser's constructor stores that length and starts in the initial state (R5.3); move_input keeps exactly the unconsumed tail "
-            "(R5.4); in the async layer close() never drives the stream parser while it stands at a record boundary, where buffered bytes belong to "
+            "and hand over (buffer, n) with the unparsed input [raw_start, free_start) located at [0, n) of the buffer (E8 region tracking through discard and "
+            "compaction, whatever their spelling); the request parser's constructor stores that length and starts in the initial state (R5.3); the "
+            "request parser's compaction - in move_input, or written out in parse - leaves the drive's remainder at [0, input_len) (R5.4, E8); in the async layer close() never drives the stream parser while it stands at a record boundary, where buffered bytes belong to "
             "the next request (R5.5, must-dataflow on the event graph). Does NOT decide the behavioural consequence (k sequential requests == k separate connections).",
     "note": "copy_within / Vec::truncate semantics of std trusted.",
     "design_ref": "DESIGN.md §4 C05",
@@ -249,7 +258,8 @@ CLAIMS["C09"] = {
             "end-of-stream are never dropped, and the success count is the parse's / the copy's count (R9.3); the writeable flag is only "
             "raised, under the single-input-stream test in the constructor or under is_final_stream() after data/end of the active stream "
             "(R9.4); StreamWriters are constructed only behind the writeable and role-membership asserts with the request's id (R9.5); "
-            "writeable() selects the role's last input stream (R9.6). Does NOT decide the exact bytes for every poll sequence nor EOF "
+            "writeable() selects the role's last input stream (R9.6); in the poll-style read interfaces a byte count returned by the transport is committed "
+            "with Parser::parse(n) before the function can return or read again, so no transport segment is overwritten after a Pending (R9.7). Does NOT decide the exact bytes for every poll sequence nor EOF "
             "persistence (the stream parser's behaviour: C02/C18).",
     "note": "stream::Parser::parse / stream_buffer / consume_stream are events with their documented meaning.",
     "design_ref": "DESIGN.md §4 C09",
